@@ -219,3 +219,21 @@ Lemma accumulator_bounded Q a0 gs : 0 < Q -> a0 <= Q ->
 Proof.
   intros HQ Ha. destruct (acc_loop Q a0 gs) as [[a b] n] eqn:E. exact (acc_loop_spec Q HQ gs a0 a b n Ha E).
 Qed.
+
+(* the loop followed by the result check on the value actually returned *)
+Lemma accumulator_call_fits Q a0 gs ret n : 0 < Q -> a0 <= Q ->
+  acc_call Q a0 gs ret = (false, n) ->
+  n = length gs /\ a0 + zsum gs <= Q /\ ret <= Q /\
+  (forall j, (j <= length gs)%nat -> a0 + zsum (firstn j gs) <= Q).
+Proof.
+  intros HQ Ha H. unfold acc_call in H.
+  destruct (acc_loop Q a0 gs) as [[a b] m] eqn:E.
+  destruct (acc_loop_spec Q HQ gs a0 a b m Ha E) as (H1 & H2 & H3 & H4 & H5).
+  destruct b; [discriminate|]. injection H as Ho <-.
+  destruct (H5 eq_refl) as [Hm Hfit]. subst m. rewrite firstn_all in H2.
+  rewrite (over_quota_fits Q _ HQ) in Ho. unfold fits in Ho.
+  split; [reflexivity|]. split; [lia|]. split; [lia|].
+  intros j Hj. destruct (Nat.eq_dec j (length gs)) as [->|Hne].
+  - rewrite firstn_all. lia.
+  - apply H3. lia.
+Qed.
